@@ -55,6 +55,9 @@ def run(rep, tier, seed, replay=None):
             rep.add_broken('correspondence', 'placement K', str(ex)[-1500:])
     else:
         bad = H.placement_k(rep, 'C06', binp, seed + 606, 12000 if escalate else 2500, kind=2)
+    # ---- K3: block containers with absolute / hidden children interleaved, vs the block model the new theorems are about
+    if not replay:
+        H.block_k(rep, 'C06', binp, seed + 660, 3600 if escalate else 900)
     for t in THEOREMS:
         rep.cov['samples'].append({'theorem': t})
     # ---- search
